@@ -3,6 +3,7 @@
 mod rng;
 mod sx;
 mod c26;
+mod dynscan;
 mod c31;
 mod par;
 mod idents;
@@ -22,6 +23,8 @@ mod c10;
 mod c11;
 mod c12;
 mod rx;
+mod c13;
+mod c14;
 mod c15;
 mod c16;
 mod c18;
@@ -84,6 +87,8 @@ fn main() {
         "c10" => c10::run(&a),
         "c11" => c11::run(&a),
         "c12" => c12::run(&a),
+        "c13" => c13::run(&a),
+        "c14" => c14::run(&a),
         "c15" => c15::run(&a),
         "c16" => c16::run(&a),
         "c18" => c18::run(&a),
